@@ -5,7 +5,7 @@ from __future__ import annotations
 
 import ast
 
-from .core import FuncTypes, dotted, walk_no_nested
+from .core import AnalysisError, FuncTypes, dotted, walk_no_nested
 
 MUTATORS = {
     "add",
@@ -278,6 +278,23 @@ def depends_on(expr, names, fn=None, depth=3):
     return False
 
 
+def clone(node):
+    """Structural copy of an AST (sub)tree.  Unlike copy.deepcopy it does not follow the `_parent` back-links the
+    loader adds (which would drag the whole module along)."""
+    if isinstance(node, list):
+        return [clone(x) for x in node]
+    if isinstance(node, ast.AST):
+        new = type(node).__new__(type(node))
+        for f in node._fields:
+            if hasattr(node, f):
+                setattr(new, f, clone(getattr(node, f)))
+        for a in ("lineno", "col_offset", "end_lineno", "end_col_offset"):
+            if hasattr(node, a):
+                setattr(new, a, getattr(node, a))
+        return new
+    return node
+
+
 def local_assignments(fn):
     out = {}
     for n in walk_no_nested(fn):
@@ -312,12 +329,12 @@ def inline_aliases(fn, interesting):
     al = {k: v for k, v in defs.items() if counts.get(k) == 1 and interesting(v)}
     if not al:
         return fn
-    new = copy.deepcopy(fn)
+    new = clone(fn)
 
     class T(ast.NodeTransformer):
         def visit_Name(self, n):
             if isinstance(n.ctx, ast.Load) and n.id in al:
-                return ast.copy_location(copy.deepcopy(al[n.id]), n)
+                return ast.copy_location(clone(al[n.id]), n)
             return n
 
     T().visit(new)
@@ -334,3 +351,258 @@ def inline_aliases(fn, interesting):
 
 def methods_of(cdef):
     return {st.name: st for st in cdef.body if isinstance(st, FuncTypes)}
+
+
+# ----------------------------------------------------------------------------- alpha-equivalence (local names are not semantics)
+
+import builtins as _builtins
+
+
+def local_names(fn):
+    """Names bound inside `fn` (assignment, loop / comprehension / with / walrus targets), excluding parameters and
+    names declared global / nonlocal.  Renaming any of them consistently never changes behaviour."""
+    cached = getattr(fn, "_local_names", None)
+    if cached is not None:
+        return cached
+    params = set()
+    if isinstance(fn, FuncTypes + (ast.Lambda,)):
+        a = fn.args
+        params = {x.arg for x in a.args + a.kwonlyargs + a.posonlyargs}
+        if a.vararg:
+            params.add(a.vararg.arg)
+        if a.kwarg:
+            params.add(a.kwarg.arg)
+    declared, stores = set(), set()
+    for n in ast.walk(fn):
+        if isinstance(n, (ast.Global, ast.Nonlocal)):
+            declared |= set(n.names)
+        elif isinstance(n, ast.Name) and isinstance(n.ctx, (ast.Store, ast.Del)):
+            stores.add(n.id)
+    out = frozenset(stores - params - declared)
+    try:
+        fn._local_names = out
+    except AttributeError:
+        pass
+    return out
+
+
+def _enclosing_fn(node):
+    p = node
+    while p is not None and not isinstance(p, FuncTypes):
+        p = getattr(p, "_parent", None)
+    return p
+
+
+def _parse_pattern(src):
+    mod = ast.parse(src)
+    if len(mod.body) == 1 and isinstance(mod.body[0], ast.Expr):
+        return mod.body[0].value
+    return mod.body[0] if len(mod.body) == 1 else mod.body
+
+
+def _alpha(a, b, locs, fwd, bwd):
+    """a: node of the analysed code, b: pattern node.  Names that are locals of the analysed function bind
+    consistently (bijection) to the pattern's names; everything else has to be identical."""
+    if isinstance(a, list) and isinstance(b, list):
+        return len(a) == len(b) and all(_alpha(x, y, locs, fwd, bwd) for x, y in zip(a, b))
+    if type(a) is not type(b):
+        return False
+    if isinstance(a, ast.Name):
+        if a.id in locs:
+            if a.id in fwd or b.id in bwd:
+                return fwd.get(a.id) == b.id and bwd.get(b.id) == a.id
+            if hasattr(_builtins, b.id) and b.id != a.id:
+                return False
+            fwd[a.id] = b.id
+            bwd[b.id] = a.id
+            return True
+        return a.id == b.id
+    if isinstance(a, ast.AST):
+        for f in a._fields:
+            if f in ("ctx", "type_comment", "kind"):
+                continue
+            x, y = getattr(a, f, None), getattr(b, f, None)
+            if isinstance(x, (ast.AST, list)):
+                if not isinstance(y, type(x)) and not (isinstance(x, ast.AST) and isinstance(y, ast.AST)):
+                    return False
+                if not _alpha(x, y, locs, fwd, bwd):
+                    return False
+            elif x != y:
+                return False
+        return True
+    return a == b
+
+
+def alpha_eq(node, pattern, fn=None, binds=None):
+    """Is `node` equal to `pattern` (source text or AST) up to a consistent renaming of the locals of its function?
+    `binds`, when given, is a dict code-name -> pattern-name shared between several calls (and updated)."""
+    fn = fn if fn is not None else _enclosing_fn(node if not isinstance(node, list) else node[0])
+    locs = local_names(fn) if fn is not None else frozenset()
+    pat = _parse_pattern(pattern) if isinstance(pattern, str) else pattern
+    fwd = dict(binds) if binds else {}
+    bwd = {v: k for k, v in fwd.items()}
+    ok = _alpha(node, pat, locs, fwd, bwd)
+    if ok and binds is not None:
+        binds.update(fwd)
+    return ok
+
+
+def find_frag(node, pattern, fn=None, binds=None):
+    """First sub-tree of `node` that is alpha-equal to `pattern` (None if there is none)."""
+    pat = _parse_pattern(pattern) if isinstance(pattern, str) else pattern
+    roots = node if isinstance(node, list) else [node]
+    for r in roots:
+        for sub in ast.walk(r):
+            if type(sub) is type(pat) and alpha_eq(sub, pat, fn, binds):
+                return sub
+    return None
+
+
+def has_frag(node, pattern, fn=None, binds=None, share=None):
+    """`share`: pattern names whose binding is kept in `binds` after a match (default: all); use it to keep
+    comprehension / loop variables of one fragment from constraining the next."""
+    if binds is None or share is None:
+        return find_frag(node, pattern, fn, binds) is not None
+    bb = dict(binds)
+    if find_frag(node, pattern, fn, bb) is None:
+        return False
+    binds.update({k: v for k, v in bb.items() if v in share})
+    return True
+
+
+def anon(node, fn=None):
+    """Source text of `node` with the locals of its function replaced by positional placeholders (_1, _2, ... in
+    order of first occurrence): a key that survives renaming."""
+    import copy
+
+    fn = fn if fn is not None else _enclosing_fn(node)
+    locs = local_names(fn) if fn is not None else frozenset()
+    m = {}
+
+    class T(ast.NodeTransformer):
+        def visit_Name(self, n):
+            if n.id in locs:
+                m.setdefault(n.id, f"_{len(m) + 1}")
+                return ast.copy_location(ast.Name(id=m[n.id], ctx=n.ctx), n)
+            return n
+
+    return ast.unparse(ast.fix_missing_locations(T().visit(clone(node))))
+
+
+def rename_locals(fn, mapping):
+    """Deep copy of `fn` with locals renamed (code name -> canonical name); parent links and tags are preserved.
+    Used to put a function into the naming a rule's reference shapes are written in, after the rule has identified
+    the locals by their *role* (what they are assigned from / how they are used)."""
+    import copy
+
+    mapping = {k: v for k, v in mapping.items() if k and v and k != v}
+    if not mapping:
+        return fn
+    new = clone(fn)
+    taken = {n.id for n in ast.walk(new) if isinstance(n, ast.Name)} - set(mapping)
+    for v in mapping.values():
+        if v in taken:
+            # the canonical name is used for something else here: move that out of the way first
+            for n in ast.walk(new):
+                if isinstance(n, ast.Name) and n.id == v:
+                    n.id = v + "__other"
+    for n in ast.walk(new):
+        if isinstance(n, ast.Name) and n.id in mapping:
+            n.id = mapping[n.id]
+    for node in ast.walk(new):
+        for child in ast.iter_child_nodes(node):
+            child._parent = node
+    new._parent = getattr(fn, "_parent", None)
+    for a in ("_qualname", "_module", "_class"):
+        if hasattr(fn, a):
+            setattr(new, a, getattr(fn, a))
+    return new
+
+
+def _header_only(p):
+    return isinstance(p, (ast.For, ast.While, ast.If, ast.With)) and len(p.body) == 1 and isinstance(p.body[0], ast.Expr) and isinstance(p.body[0].value, ast.Constant) and p.body[0].value.value is Ellipsis
+
+
+def canonicalise(fn, patterns, required=False):
+    """Put the locals of `fn` into the naming the rule's reference shapes use, identifying each local by its *role*:
+    `patterns` are reference statements (source text, written with the canonical names); each is alpha-matched, in
+    order and with cumulative bindings, against the statements of `fn`.  A compound statement whose body is `...`
+    matches on its header only (`for c, v in reversed(list(cases)): ...`).  Returns (copy of fn with the bound locals
+    renamed, set of canonical names that were found).  Locals whose pattern does not match keep their names - the
+    rule's own checks then decide what that means."""
+    binds = {}
+    found = set()
+    stmts = [n for n in ast.walk(fn) if isinstance(n, ast.stmt) and n is not fn]
+    for src in patterns:
+        pat = _parse_pattern(src)
+        hit = False
+        for st in stmts:
+            if type(st) is not type(pat):
+                continue
+            trial = dict(binds)
+            if _header_only(pat):
+                ok = True
+                for f in ("target", "iter", "test", "items"):
+                    if hasattr(pat, f):
+                        ok = ok and alpha_eq(getattr(st, f), getattr(pat, f), fn, trial)
+            else:
+                ok = alpha_eq(st, pat, fn, trial)
+            if ok:
+                # variables bound inside a comprehension of the pattern are private to it
+                private = {t.id for c in ast.walk(pat) if isinstance(c, ast.comprehension) for t in ast.walk(c.target) if isinstance(t, ast.Name)}
+                binds = {k: v for k, v in trial.items() if v not in private or k in binds}
+                hit = True
+                break
+        if hit:
+            found |= {x.id for x in ast.walk(pat) if isinstance(x, ast.Name)}
+        elif required:
+            raise AnalysisError(f"{getattr(fn, '_qualname', fn.name)}: reference statement `{src}` not found")
+    return rename_locals(fn, binds), found
+
+
+class Frags:
+    """Reference fragments of one function, matched up to renaming of its locals, with cumulative bindings: the
+    first fragment that mentions a local fixes which code name plays that role, later fragments have to agree.
+    Variables bound inside a comprehension of a fragment stay private to that fragment."""
+
+    def __init__(self, fn):
+        self.fn = fn
+        self.b = {}  # code name -> reference name
+
+    def find(self, src, within=None):
+        pat = _parse_pattern(src)
+        private = set()
+        if not isinstance(pat, list):
+            private = {t.id for c in ast.walk(pat) if isinstance(c, ast.comprehension) for t in ast.walk(c.target) if isinstance(t, ast.Name)}
+        trial = dict(self.b)
+        hit = find_frag(within if within is not None else self.fn, pat, self.fn, trial)
+        if hit is not None:
+            self.b.update({k: v for k, v in trial.items() if v not in private})
+        return hit
+
+    def has(self, src, within=None):
+        return self.find(src, within) is not None
+
+    def all(self, *srcs):
+        return all(self.has(s) for s in srcs)
+
+    def code(self, ref_name):
+        """the code's name for the local that plays the role `ref_name` (the reference name itself if unbound)"""
+        for k, v in self.b.items():
+            if v == ref_name:
+                return k
+        return ref_name
+
+    def canon(self, node):
+        """source text of `node` in the reference naming"""
+        import copy
+
+        b = self.b
+
+        class T(ast.NodeTransformer):
+            def visit_Name(self, n):
+                if n.id in b:
+                    return ast.copy_location(ast.Name(id=b[n.id], ctx=n.ctx), n)
+                return n
+
+        return ast.unparse(ast.fix_missing_locations(T().visit(clone(node))))
